@@ -91,6 +91,8 @@ TWINS = {
     "f": [NAN, -1.0, -2.0, 0.5, 2.0**60, INF, 314159.0], "f32": [NAN, -1.0, -2.0], "i": [-1, -2, 0, 2**61 - 1, 2**61],
     "i32": [-1, -2, 0], "i8": [-1, -2, 0], "d": [None, "1969-12-31", "1969-12-30"], "td": [None, -1, -2],
     "tn": [None, "1969-12-31T23:59:59.999999999", "1969-12-31T23:59:59.999999998"],
+    # strings that any escaping of NULs has to keep apart: NUL vs U+0001 / U+0002, equal up to an embedded NUL
+    "s": ["", "a\x00", "a\x01\x01", "a\x01", "a\x01\x02", "a\x00b", "a\x00c", "a"],
     "t": [None, "1969-12-31T23:59:59.999999", "1969-12-31T23:59:59.999998"], "oi": [None, -1, -2],
 }
 
